@@ -41,6 +41,52 @@ def gen_constraint(rnd: random.Random, max_groups: int = 3, max_clauses: int = 3
     return rnd.choice([" || ", "||", " | "]).join(groups)
 
 
+# ------------------------------------------------------------------ one release and its relatives
+FAM_REL = ["1.0", "2.0", "1.2", "2", "1.2.3", "2.0.0", "3", "1!1.0"]
+
+
+def family(rel: str) -> list[str]:
+    """a release X and the versions poetry-core derives from it or orders next to it: first dev / first pre-release, a
+    pre-release, post-releases, a local build, the padded spelling, the next patch / minor — the values at which derived
+    bounds (`allowed_max` of `<X` is X.dev0, `==X.*` is [X.dev0, next.dev0)) coincide with written ones"""
+    ep, _, r = rel.rpartition("!")
+    ep = ep + "!" if ep else ""
+    parts = [int(x) for x in r.split(".")]
+    nxt = parts[:-1] + [parts[-1] + 1]
+    prv = parts[:-1] + [max(parts[-1] - 1, 0)]
+    j = lambda ps: ep + ".".join(str(x) for x in ps)  # noqa: E731
+    return [rel, rel + ".dev0", rel + "a0", rel + "rc1", rel + ".post0", rel + ".post1", rel + "+local", rel + ".0", rel + ".dev1",
+            j(nxt), j(nxt) + ".dev0", j(prv), j(parts + [1])]
+
+
+def gen_family_constraint(rnd: random.Random, fam: list[str], rel: str) -> str:
+    def clause() -> str:
+        k = rnd.random()
+        if k < 0.12:
+            return rnd.choice(["==", "!="]) + rel + ".*"
+        if k < 0.2:
+            return rnd.choice(["^", "~", "~="]) + rnd.choice([fam[0], fam[-2], fam[-1]])
+        op = rnd.choice(["==", "==", "!=", "<", "<", "<=", ">", ">=", ">=", ""])
+        v = rnd.choice(fam)
+        if "+" in v and op in ("<", ">"):
+            op += "="
+        return op + v
+    groups = [",".join(clause() for _ in range(rnd.choice([1, 1, 1, 2]))) for _ in range(rnd.choice([1, 1, 2, 2, 3]))]
+    return " || ".join(groups)
+
+
+def gen_family_pairs(rnd: random.Random, n: int) -> list[tuple[str, str]]:
+    """both operands over ONE release family (half of the time one operand is a single version of the family)"""
+    out = []
+    for _ in range(n):
+        rel = rnd.choice(FAM_REL)
+        fam = family(rel)
+        a = "==" + rnd.choice(fam) if rnd.random() < 0.5 else gen_family_constraint(rnd, fam, rel)
+        b = gen_family_constraint(rnd, fam, rel)
+        out.append((a, b) if rnd.random() < 0.5 else (b, a))
+    return out
+
+
 PROBE_BASES = ["0.0.1", "0.5", "1.1", "1.5", "1.2.5", "2.5", "3.5", "4", "0.0.0.1", "1.0.1", "1.2.3.1", "1.3", "2.1", "0", "1", "1.0", "1.2", "1.2.3", "2", "3"]
 PROBE_SUF = ["", ".dev1", "a2", ".post3", "+loc", ".post2+x.1", "rc1.dev1", ".dev0", "a0", ".post0"]
 
